@@ -440,6 +440,17 @@ def gen_variant_cases(rng, n_per_system):
             # integer columns
             cases.append(dict(base, variant="int", columns=bcols, values=bvals,
                               int_cols=[c for c, v in zip(bcols, bvals) if all(float(x).is_integer() for x in v)]))
+            # ... ONE integer-typed column (whole numbers only in the FIRST tensor column: e.g. c11 tabulated as 312, 305, …) next to
+            # float columns; a minimal sufficient subset stays consistent whatever its independent values are
+            Sm = list(mins[int(rng.integers(0, len(mins)))])
+            T2 = numpy.array(T, dtype=float).copy()
+            T2[:, Sm[0]] = numpy.round(T2[:, Sm[0]]); T2[:, Sm[0]][T2[:, Sm[0]] == 0] = 1.0
+            for j_ in Sm[1:]:                                   # the other supplied columns carry decimals (T itself is integer-valued)
+                T2[:, j_] = T2[:, j_] + 0.37 + 0.25 * (j_ % 3) + 0.011 * numpy.arange(T2.shape[0])
+            b2cols, b2vals = table(T2, Sm, with_v=bool(t % 2))
+            first = next(c for c in b2cols if c.lower() in fc.SYMS)
+            cases.append(dict(base, base_columns=b2cols, base_values=b2vals, sufficient=True, variant="int", columns=b2cols, values=b2vals,
+                              int_cols=[first], int_first=True))
             # working directory containing a directory named like the system / a user-written relations file
             cases.append(dict(base, variant="cwd", columns=bcols, values=bvals))
             cases.append(dict(base, variant="userfile", columns=bcols, values=bvals))
